@@ -3,7 +3,7 @@
 import json, glob, os, re
 rows = []
 missed = 0
-for d in sorted(glob.glob('/verif/seeded/*/')):
+for d in sorted(glob.glob('/verif/seeded/[A-Z]*/')):
     m = json.load(open(d + 'meta.json'))
     if m['history'].startswith('missed'):
         missed += 1
